@@ -10,7 +10,7 @@
 // nng_pipe_close (same handle twice, parent and child concurrently, both ends)
 // while submitter threads keep calling the API on the same handles.
 //
-// Oracles: (1) every close returns (watchdog); (2) every operation pending on
+// Oracles: (1) every close returns (watchdog, 30 s per case); (2) every operation pending on
 // a closed object has its callback / returns within GRACE after the closes
 // returned; (3) any call that begins after a close of the handle (or of its
 // socket) returned yields NNG_ECLOSED / NNG_ENOENT (or the documented value
@@ -66,6 +66,7 @@ typedef struct rec {
 	_Atomic int      dead_at_submit;
 	_Atomic int      pending_at_close;
 	_Atomic uint64_t t_cb;
+	bool             lost;
 	struct casectx  *cx;
 } rec;
 
@@ -77,6 +78,7 @@ typedef struct blocker {
 	int             hidx;
 	_Atomic int     started, done;
 	int             rv;
+	bool            lost;
 	struct casectx *cx;
 } blocker;
 
@@ -119,7 +121,7 @@ typedef struct casectx {
 	long            idx;
 	const vf_proto *proto;
 	int             tran;
-	bool            device, expiry, rawv, notify;
+	bool            device, expiry, rawv, notify, keep;
 	int             ns;
 	nng_socket      s[MAXS];
 	int             sh[MAXS];
@@ -1152,58 +1154,73 @@ static const int teardown_sites[] = { NNI_VP_PIPE_REAP_BEFORE_STOP, NNI_VP_PIPE_
 #define NSITES ((int) (sizeof(teardown_sites) / sizeof(teardown_sites[0])))
 
 static casectx *prev_cx[2];
-static int      wd_secs = 60;
+static int      wd_secs = 30;
 
 // An operation that the library lost sits on a list of an object that has been
 // freed: cancelling, stopping or freeing its aio would touch that memory, and
-// a thread that never returns cannot be joined.  The violation is on record;
-// end this process here (the driver resumes with the next case).
-static void *dbg_dev_aio;
-static int   dbg_dev_sid;
-static void
-lost_abort(void)
+// a thread that never returns cannot be joined.  After the verdict the record
+// (and its case context) is abandoned, the allocator balance of this
+// nng_init/nng_fini period is not judged, and later losses in this process
+// are only counted (with a short wait), so that a tree with such a defect
+// does not cost GRACE_MS per occurrence.
+static int      tainted, tainted_alloc;
+static casectx *kept[512];
+static int      nkept;
+
+static int
+grace_ms(void)
 {
-	char cmd[900];
+	return tainted ? 300 : GRACE_MS;
+}
+
+static void
+lost(casectx *cx, const char *key, const char *what, const char *phase)
+{
+	char cmd[256];
+	cx->keep = true;
+	tainted_alloc = 1;
+	if (tainted) {
+		vf_stat("operations_lost_after_first_verdict", 1);
+		return;
+	}
+	tainted = 1;
+	vf_violation(key, "%s %d ms after every close call had returned (%s)", what, GRACE_MS, phase);
+	vf_stat("operations_lost", 1);
 	fflush(NULL);
 	// where is everybody?  (diagnostics only)
-	if (getenv("C10_DBG_DEV") && dbg_dev_aio) {
-		nni_verif_fail("C10dbg", "lost-device aio=%p", dbg_dev_aio);
-		fprintf(stderr, "DBG device V id=%d\n", dbg_dev_sid);
-		snprintf(cmd, sizeof(cmd), "gdb -q -batch -p %d -ex 'print *(struct nng_aio *)%p' -ex 'print *nni_dbg_last_device' -ex 'print nni_dbg_last_device->paths[0].aio.a_cancel_fn' -ex 'print nni_dbg_last_device->paths[0].aio.a_abort' -ex 'print nni_dbg_last_device->paths[0].aio.a_v_active' -ex 'print nni_dbg_last_device->paths[0].src->s_id' -ex 'print nni_dbg_last_device->paths[0].state' -ex 'print nni_dbg_last_device->paths[1].state' -ex 'print (void*)%p' 2>&1 | tail -40 >&2", (int) getpid(), dbg_dev_aio, dbg_dev_aio);
-		if (system(cmd) != 0) fprintf(stderr, "(no gdb)\n");
-	}
 	snprintf(cmd, sizeof(cmd), "gdb -q -batch -p %d -ex 'thread apply all bt 12' 2>&1 | grep -v '^\\[New\\|^Reading\\|^warning' | head -300 >&2", (int) getpid());
 	if (system(cmd) != 0) fprintf(stderr, "(no stacks)\n");
-	abort();
 }
 
 static void
 check_pending(casectx *cx, const char *phase)
 {
+	char key[128], what[200];
 	for (int i = 0; i < cx->nr; i++) {
 		rec *rc = &cx->r[i];
-		if (rc->op == OP_DEVICE && !atomic_load(&cx->h[cx->sh[0]].dead)) continue;
-		if (rc->op != OP_DEVICE && !atomic_load(&cx->h[rc->hidx].dead)) continue;
+		if (rc->lost || rc->op == OP_DEVICE) continue;
+		if (!atomic_load(&cx->h[rc->hidx].dead)) continue;
 		uint64_t t0 = vf_now_ns();
-		if (!rec_wait(rc, GRACE_MS)) {
-			char key[128];
+		if (!rec_wait(rc, grace_ms())) {
+			rc->lost = true;
 			snprintf(key, sizeof(key), "C10/pending-forever/%s/%s", op_names[rc->op], cx->sp[cx->h[rc->hidx].owner]->name);
-			vf_violation(key, "%s on a %s still has no callback %d ms after every close call had returned (%s)", op_names[rc->op], hkind_names[cx->h[rc->hidx].kind], GRACE_MS, phase);
-			lost_abort();
+			snprintf(what, sizeof(what), "%s on a %s still has no callback", op_names[rc->op], hkind_names[cx->h[rc->hidx].kind]);
+			lost(cx, key, what, phase);
 		} else {
 			vf_stat_max("max_completion_wait_after_close_ms", (long) ((vf_now_ns() - t0) / 1000000ULL));
 		}
 	}
 	for (int i = 0; i < cx->nb; i++) {
 		blocker *b = &cx->b[i];
-		if (!atomic_load(&cx->h[b->hidx].dead)) continue;
-		uint64_t end = vf_now_ns() + (uint64_t) GRACE_MS * 1000000ULL;
+		if (b->lost || !atomic_load(&cx->h[b->hidx].dead)) continue;
+		uint64_t end = vf_now_ns() + (uint64_t) grace_ms() * 1000000ULL;
 		while (!atomic_load(&b->done)) {
 			if (vf_now_ns() > end) {
-				char key[128];
+				b->lost = true;
 				snprintf(key, sizeof(key), "C10/pending-forever/%s/%s", b_names[b->op], cx->sp[cx->h[b->hidx].owner]->name);
-				vf_violation(key, "thread blocked in %s did not return %d ms after the close of its %s had returned (%s)", b_names[b->op], GRACE_MS, hkind_names[cx->h[b->hidx].kind], phase);
-				lost_abort();
+				snprintf(what, sizeof(what), "thread blocked in %s (on a %s that was closed) has not returned", b_names[b->op], hkind_names[cx->h[b->hidx].kind]);
+				lost(cx, key, what, phase);
+				break;
 			}
 			vf_usleep(200);
 		}
@@ -1406,8 +1423,6 @@ run_case(long idx, vf_rng *r)
 	// ---- device
 	if (cx->device) {
 		cx->devrec = rec_new(cx, OP_DEVICE, cx->sh[V], -1, -1);
-		dbg_dev_aio = cx->devrec->aio;
-		dbg_dev_sid = nng_socket_id(cx->s[0]);
 		rec_submit(cx->devrec);
 		vf_class("element=device/%s", P->name);
 	}
@@ -1573,9 +1588,15 @@ run_case(long idx, vf_rng *r)
 	// ---- final teardown: everything that is still open
 	if (cx->device) {
 		nng_aio_cancel(cx->devrec->aio);
-		if (!rec_wait(cx->devrec, GRACE_MS)) {
-			vf_violation("C10/pending-forever/device", "nng_device_aio not completed %d ms after nng_aio_cancel", GRACE_MS);
-			lost_abort();
+		if (!rec_wait(cx->devrec, grace_ms())) {
+			cx->devrec->lost = true;
+			lost(cx, "C10/pending-forever/device", "nng_device_aio cancelled with nng_aio_cancel is not completed", "device");
+			// its two sockets stay owned by the device: closing them (or
+			// nng_fini) would only produce consequences of this loss.  The
+			// verdict is on record; end this process here (the driver
+			// resumes with the next case).
+			fflush(NULL);
+			abort();
 		} else {
 			vf_class("device-ended/%s", resname(atomic_load(&cx->devrec->last_rv)));
 			// a device that ran has closed both of its sockets before it
@@ -1605,15 +1626,19 @@ run_case(long idx, vf_rng *r)
 	for (int i = 0; i < cx->fk.nheld; i++) close(cx->fk.held[i]);
 	for (int i = 0; i < cx->nunl; i++) unlink(cx->unl[i]);
 	check_pending(cx, "after every socket was closed");
-	for (int i = 0; i < cx->nb; i++) pthread_join(cx->b[i].th, NULL);
+	for (int i = 0; i < cx->nb; i++) {
+		if (cx->b[i].lost) pthread_detach(cx->b[i].th);
+		else pthread_join(cx->b[i].th, NULL);
+	}
 	probe_all_dead(cx, paio);
 	nng_aio_free(paio);
 	long ops = 0;
 	for (int i = 0; i < cx->nr; i++) {
 		rec *rc = &cx->r[i];
+		ops += atomic_load(&rc->n_submit);
+		if (rc->lost) continue; // abandoned, see lost()
 		nng_aio_stop(rc->aio);
 		nng_aio_free(rc->aio);
-		ops += atomic_load(&rc->n_submit);
 	}
 	vf_pt_off();
 	vf_stat("aio_operations", ops);
@@ -1629,13 +1654,32 @@ run_case(long idx, vf_rng *r)
 		vf_sample("{\"proto\":\"%s\",\"raw\":%d,\"device\":%d,\"tran\":\"%s\",\"shape\":%d,\"closers\":%d,\"submitters\":%d,\"aios_pending\":%d,\"threads_blocked\":%d,\"handles\":%d,\"stalled_dials\":%d,\"stalled_accepts\":%d,\"pert\":\"%s\"}",
 		    P->name, cx->rawv, cx->device, vf_tran_names[cx->tran], shape, cx->ncl, cx->nsub, pending, blocked, atomic_load(&cx->nh), cx->stall_dials, cx->stall_accepts, pert < 2 ? "none" : pert < 5 ? "jitter" : vf_pt_name(site));
 	}
-	if (prev_cx[1]) {
-		pthread_mutex_destroy(&prev_cx[1]->hmtx);
-		free(prev_cx[1]);
+	if (cx->keep) {
+		if (nkept < 512) kept[nkept++] = cx; // stays reachable
+	} else {
+		if (prev_cx[1]) {
+			pthread_mutex_destroy(&prev_cx[1]->hmtx);
+			free(prev_cx[1]);
+		}
+		prev_cx[1] = prev_cx[0];
+		prev_cx[0] = cx;
 	}
-	prev_cx[1] = prev_cx[0];
-	prev_cx[0] = cx;
 	vf_watchdog(wd_secs);
+}
+
+static void
+c10_fini(void)
+{
+	if (tainted_alloc) {
+		// abandoned aios are still allocated: no balance verdict
+		nng_fini();
+		vf_alloc_reset();
+		tainted_alloc = 0;
+		vf_stat("fini_without_balance_check", 1);
+	} else {
+		vf_nng_fini("C10");
+		vf_stat("fini_balance_checks", 1);
+	}
 }
 
 int
@@ -1674,15 +1718,11 @@ main(int argc, char **argv)
 			if (base_live < 0) base_live = live;
 		}
 		if (fini) {
-			vf_nng_fini("C10");
-			vf_stat("fini_balance_checks", 1);
+			c10_fini();
 			inited = 0;
 		}
 	}
-	if (inited) {
-		vf_nng_fini("C10");
-		vf_stat("fini_balance_checks", 1);
-	}
+	if (inited) c10_fini();
 	for (int s = NNI_VP_PIPE_CLOSE_FLAGGED; s < NNI_VP_NSITES; s++) {
 		if (vf_pt_delays(s)) {
 			char k[64];
